@@ -72,6 +72,14 @@ def plan(tier, seed):
                     "kind": "tf_public", "k": k, "b": b,
                     "depth": min(depth, 3), "profile": {"x64": False},
                     "part": "tearfree_public"})
+      # the same sketches when the optimizer runs under jax.pmap over two
+      # devices (each device computes one of the two statistics' roots from
+      # its own previous sketch)
+      tasks.append({"name": "ds_public_pmap2/6x6/k%d/b%s" % (k, b),
+                    "kind": "ds_public", "k": k, "b": b, "shape": [6, 6],
+                    "pmap": 2, "depth": min(depth, 3),
+                    "profile": {"x64": False, "devices": 2},
+                    "part": "ds_public"})
   tasks.append({"name": "fd_factor", "kind": "fd_factor", "tier": tier,
                 "profile": {"x64": True}, "part": "ds_fd_factor"})
   for b in [1.0, 0.5]:
@@ -371,9 +379,9 @@ def run_public(task, acc):
     cfg = dict(compression_rank=k, block_size=8, frequent_directions=True,
                reuse_preconditioner=True, beta2=b, matrix_epsilon=0.0,
                best_effort_shape_interpretation=False, graft_type=1)
-    opt = dsh.build_opt(cfg, "rep")
+    opt = dsh.build_opt(cfg, "pmap" if task.get("pmap") else "rep")
     case0 = {"impl": "distributed_shampoo (frequent_directions)", "k": k,
-             "b": b}
+             "b": b, "pmap_devices": task.get("pmap", 0)}
 
     def sketches(state):
       out = []
@@ -401,8 +409,19 @@ def run_public(task, acc):
       return out
     p = 2 * nd
   upd = jax.jit(opt.update)
-  orc = SketchOracle(acc, "C09|" + task["name"], case0, False)
   s0 = opt.init(params)
+  if task.get("pmap"):
+    D = task["pmap"]
+    rep = lambda t: jax.tree_util.tree_map(
+        lambda x: jnp.stack([jnp.asarray(x)] * D), t)
+    pupd = jax.pmap(opt.update, axis_name="batch", devices=jax.devices()[:D])
+    prep = rep(params)
+    s0 = rep(s0)
+    upd = lambda g, st, _: pupd(rep(g), st, prep)
+    sk_one = sketches
+    sketches = lambda st: sk_one(jax.tree_util.tree_map(lambda x: x[D - 1],
+                                                        st))
+  orc = SketchOracle(acc, "C09|" + task["name"], case0, False)
   frontier = [(s0, [np.zeros((d, d)) for d in sh], ())]
   acc.states += 1
   for _ in range(task["depth"]):
